@@ -6,16 +6,34 @@ import (
 	"go/parser"
 	"go/token"
 	"os"
+	"reflect"
 	"sort"
 	"strconv"
 	"strings"
+
+	"github.com/xelaj/mtproto/telegram"
+	"github.com/xelaj/mtproto/verifharness/tlh"
 )
 
 // constsCmd lists the typed integer constants of a Go package directory as the SOURCE names them:
-//   const <TAB> TypeName <TAB> ConstName <TAB> value(decimal)
+//
+//	const <TAB> TypeName <TAB> ConstName <TAB> value(decimal)
+//
 // Reflection cannot see constant identifiers; the identifier is what the programmer writes, so a
 // constant whose name says one schema constructor and whose value is another one's id is visible
 // only here.  Files ending in _test.go are skipped.
+//
+// Further lines, for the "member of its result type's interface" half of C13:
+//
+//	srciface <TAB> Name <TAB> m1,m2,...      every interface type DECLARED in the package source (its explicit methods)
+//	riface   <TAB> id <TAB> pkg.Name         every interface type the reflection walk reaches: ids 0..n-1 are the registry
+//	                                         translator's own (interfaces occurring as struct FIELD types, tl.Object = 0),
+//	                                         followed by those that occur only as RESULT types of the methods of *telegram.Client
+//	rimpl    <TAB> tid <TAB> pkg.Struct <TAB> id,id,...   reflect: *Struct implements these interfaces (tid as in `registry`)
+//
+// A generated interface that is the result of a method but the type of no field (contacts.Contacts,
+// auth.SentCode's relatives, ...) is invisible to the registry translator; the Client's method
+// signatures are where such a type is used, so that is where the walk finds it.
 func constsCmd(dir, outPath string) {
 	fset := token.NewFileSet()
 	pkgs, err := parser.ParseDir(fset, dir, func(fi os.FileInfo) bool { return !strings.HasSuffix(fi.Name(), "_test.go") }, 0)
@@ -53,9 +71,33 @@ func constsCmd(dir, outPath string) {
 					}
 				}
 			}
+			for _, d := range f.Decls {
+				gd, ok := d.(*ast.GenDecl)
+				if !ok || gd.Tok != token.TYPE {
+					continue
+				}
+				for _, sp := range gd.Specs {
+					ts := sp.(*ast.TypeSpec)
+					it, ok := ts.Type.(*ast.InterfaceType)
+					if !ok || ts.Assign.IsValid() || it.Methods == nil {
+						continue
+					}
+					ms := []string{}
+					for _, m := range it.Methods.List {
+						for _, n := range m.Names {
+							ms = append(ms, n.Name)
+						}
+					}
+					if len(ms) == 0 {
+						continue // `interface{}` and pure embeddings say nothing about membership
+					}
+					lines = append(lines, fmt.Sprintf("srciface\t%s\t%s", ts.Name.Name, strings.Join(ms, ",")))
+				}
+			}
 		}
 	}
 	sort.Strings(lines)
+	lines = append(lines, reflectedIfaces()...)
 	f, err := os.Create(outPath)
 	if err != nil {
 		fmt.Fprintln(os.Stderr, err)
@@ -65,4 +107,63 @@ func constsCmd(dir, outPath string) {
 		fmt.Fprintln(f, l)
 	}
 	f.Close()
+}
+
+// reflectedIfaces: the interface types of package telegram reachable from struct fields (the
+// registry translator's list, ids kept) and from the results of *telegram.Client's methods, and
+// which struct of the universe implements which of them, decided by reflect.Type.Implements.
+func reflectedIfaces() []string {
+	u := tlh.Build(scanned)
+	its := append([]reflect.Type{}, u.Ifaces...)
+	seen := map[reflect.Type]bool{}
+	for _, t := range its {
+		seen[t] = true
+	}
+	extra := []reflect.Type{}
+	var visit func(t reflect.Type)
+	visit = func(t reflect.Type) {
+		switch t.Kind() {
+		case reflect.Slice, reflect.Ptr, reflect.Array:
+			visit(t.Elem())
+		case reflect.Interface:
+			if !seen[t] && t.NumMethod() > 0 && strings.HasSuffix(t.PkgPath(), "/telegram") {
+				seen[t] = true
+				extra = append(extra, t)
+			}
+		}
+	}
+	ct := reflect.TypeOf((*telegram.Client)(nil))
+	for i := 0; i < ct.NumMethod(); i++ {
+		mt := ct.Method(i).Type
+		for k := 0; k < mt.NumOut(); k++ {
+			visit(mt.Out(k))
+		}
+		for k := 1; k < mt.NumIn(); k++ {
+			visit(mt.In(k))
+		}
+	}
+	sort.Slice(extra, func(i, j int) bool { return extra[i].Name() < extra[j].Name() })
+	its = append(its, extra...)
+	name := func(t reflect.Type) string {
+		p := t.PkgPath()
+		if i := strings.LastIndex(p, "/"); i >= 0 {
+			p = p[i+1:]
+		}
+		return p + "." + t.Name()
+	}
+	out := []string{}
+	for i, t := range its {
+		out = append(out, fmt.Sprintf("riface\t%d\t%s", i, name(t)))
+	}
+	for _, s := range u.Structs {
+		ids := []string{}
+		pt := reflect.PtrTo(s.Type)
+		for i, t := range its {
+			if pt.Implements(t) {
+				ids = append(ids, strconv.Itoa(i))
+			}
+		}
+		out = append(out, fmt.Sprintf("rimpl\t%d\t%s\t%s", s.Tid, s.Name, strings.Join(ids, ",")))
+	}
+	return out
 }
